@@ -76,6 +76,50 @@ pub fn run(mut run: Run) -> i32 {
             }
         }
     });
+    // the chaining methods: t.scaled(..) / translated / rotated / skewed must equal t.compose(&AffineTransform::scale(..)) etc. for every matrix t
+    // (also those with off-diagonal terms), in f64 and, for scale and translate, in i64
+    run.stage("chained-constructors", nm, |idx, acc| {
+        let a = &ms[idx];
+        let (fa, ia) = (tf(a), ti(a));
+        acc.class(format!("chain offdiag{}", a[1] != 0 || a[3] != 0));
+        let same = |x: &AffineTransform<f64>, y: &AffineTransform<f64>| -> bool {
+            [(x.a(), y.a()), (x.b(), y.b()), (x.xoff(), y.xoff()), (x.d(), y.d()), (x.e(), y.e()), (x.yoff(), y.yoff())].iter().all(|(p, q)| (p - q).abs() <= 1e-12 * (1.0 + q.abs()))
+        };
+        for (fx, fy, o) in [(3.0, 3.0, (2.0, -1.0)), (0.5, 2.0, (0.0, 0.0)), (-1.0, 4.0, (1.0, 1.0))] {
+            acc.evals += 2;
+            let (got, want) = (fa.scaled(fx, fy, o), fa.compose(&AffineTransform::scale(fx, fy, o)));
+            if !same(&got, &want) {
+                acc.viol("scaled() differs from compose(scale())".into(), idx, || json!({"matrix": format!("{:?}", a), "scale": [fx, fy], "origin": format!("{:?}", o), "got": format!("{:?}", got), "expected": format!("{:?}", want)}));
+            }
+            let (fxi, fyi, oi) = (fx as i64 * 2 + 1, fy as i64 + 2, (o.0 as i64, o.1 as i64));
+            let (goti, wanti) = (ia.scaled(fxi, fyi, oi), ia.compose(&AffineTransform::scale(fxi, fyi, oi)));
+            if goti != wanti {
+                acc.viol("scaled() differs from compose(scale()) (i64)".into(), idx, || json!({"matrix": format!("{:?}", a), "scale": [fxi, fyi], "origin": format!("{:?}", oi), "got": format!("{:?}", goti), "expected": format!("{:?}", wanti)}));
+            }
+        }
+        for (dx, dy) in [(7.0, -3.0), (0.5, 1e8)] {
+            acc.evals += 2;
+            let (got, want) = (fa.translated(dx, dy), fa.compose(&AffineTransform::translate(dx, dy)));
+            if !same(&got, &want) {
+                acc.viol("translated() differs from compose(translate())".into(), idx, || json!({"matrix": format!("{:?}", a), "offset": [dx, dy], "got": format!("{:?}", got), "expected": format!("{:?}", want)}));
+            }
+            let (goti, wanti) = (ia.translated(dx as i64 + 2, -3), ia.compose(&AffineTransform::translate(dx as i64 + 2, -3)));
+            if goti != wanti {
+                acc.viol("translated() differs from compose(translate()) (i64)".into(), idx, || json!({"matrix": format!("{:?}", a), "got": format!("{:?}", goti), "expected": format!("{:?}", wanti)}));
+            }
+        }
+        for (deg, o) in [(90.0, (1.0, -2.0)), (33.0, (0.0, 0.0))] {
+            acc.evals += 2;
+            let (got, want) = (fa.rotated(deg, o), fa.compose(&AffineTransform::rotate(deg, o)));
+            if !same(&got, &want) {
+                acc.viol("rotated() differs from compose(rotate())".into(), idx, || json!({"matrix": format!("{:?}", a), "degrees": deg, "got": format!("{:?}", got), "expected": format!("{:?}", want)}));
+            }
+            let (got, want) = (fa.skewed(deg / 3.0, 20.0, o), fa.compose(&AffineTransform::skew(deg / 3.0, 20.0, o)));
+            if !same(&got, &want) {
+                acc.viol("skewed() differs from compose(skew())".into(), idx, || json!({"matrix": format!("{:?}", a), "got": format!("{:?}", got), "expected": format!("{:?}", want)}));
+            }
+        }
+    });
     run.stage("inverse", nm, |idx, acc| {
         let a = &ms[idx];
         let det = a[0] * a[4] - a[1] * a[3];
